@@ -50,7 +50,12 @@ def gen_plan(r, index, tier):
             # exactly one constrained leaf is pushed outside (several at once would mask each other)
             n_leaves = _count_con(w['desc'], w['values'][0])
             target = [r.randrange(n_leaves) if n_leaves else -1]
-            pl['neighbour_value'] = _violate(r, w['desc'], copy.deepcopy(w['values'][0]), target)
+            info = []
+            pl['neighbour_value'] = _violate(r, w['desc'], copy.deepcopy(w['values'][0]), target, info)
+            if info and r.random() < 0.5:
+                # the same out-of-range value also in every UNCONSTRAINED leaf of that kind (harmless there):
+                # whatever the decoder remembers about a value seen earlier must not vouch for the later one
+                pl['neighbour_value'] = _echo(w['desc'], pl['neighbour_value'], info[0][0], info[0][1])
         else:
             pl['neighbour_value'] = U.gen_value(r, pl['neighbour'], U.ValCfg(small=True))
     total, points = common.stream_shape(w)
@@ -113,7 +118,25 @@ def _count_con(desc, v):
     return n
 
 
-def _violate(r, desc, v, target):
+def _echo(desc, v, kind, x):
+    k = desc['k']
+    if k == kind and k in U.PRIMS and not desc.get('con') and not desc.get('named'):
+        return x
+    if k in ('SEQ', 'SET'):
+        out = dict(v)
+        for f in desc['fields']:
+            if f['n'] in out and not f.get('open'):
+                out[f['n']] = _echo(f['d'], out[f['n']], kind, x)
+        return out
+    if k in ('SEQOF', 'SETOF'):
+        return [_echo(desc['of'], y, kind, x) for y in v]
+    if k == 'CHOICE':
+        a = dict((n_, d_) for n_, d_ in desc['alts'])[v[0]]
+        return [v[0], _echo(a, v[1], kind, x)]
+    return v
+
+
+def _violate(r, desc, v, target, info=None):
     """Push the target-th constrained node of value v (of desc) outside its constraint."""
     k = desc['k']
     con = desc.get('con') or {}
@@ -121,6 +144,10 @@ def _violate(r, desc, v, target):
     if con:
         hit = target[0] == 0
         target[0] -= 1
+    if hit and info is not None and k in U.PRIMS:
+        new = _violate(r, desc, v, [0], None)
+        info.append((k, new))
+        return new
     if k == 'INTEGER' and 'range' in con and hit:
         lo, hi = con['range']
         return r.choice([lo - 1, hi + 1, lo - 129, lo - 70000, hi + 2 ** 40, -2 ** 63])
@@ -140,7 +167,7 @@ def _violate(r, desc, v, target):
         out = dict(v)
         for f in desc['fields']:
             if f['n'] in out and not f.get('open'):
-                out[f['n']] = _violate(r, f['d'], out[f['n']], target)
+                out[f['n']] = _violate(r, f['d'], out[f['n']], target, info)
         return out
     if k in ('SEQOF', 'SETOF'):
         items = list(v)
@@ -151,10 +178,10 @@ def _violate(r, desc, v, target):
                 items.append(U.gen_value(r, desc['of'], U.ValCfg(small=True)))
             items = items[:n]
             return items
-        return [_violate(r, desc['of'], x, target) for x in items]
+        return [_violate(r, desc['of'], x, target, info) for x in items]
     if k == 'CHOICE':
         a = dict((n_, d_) for n_, d_ in desc['alts'])[v[0]]
-        return [v[0], _violate(r, a, v[1], target)]
+        return [v[0], _violate(r, a, v[1], target, info)]
     return v
 
 
